@@ -735,7 +735,11 @@ func parseSeqString(s string) []op {
 
 func TestCheck(t *testing.T) {
 	log.Root().SetHandler(log.DiscardHandler())
-	debug.SetGCPercent(800)
+	gcp := 800
+	if v := os.Getenv("VERIF_C09_GOGC"); v != "" { // development aid
+		fmt.Sscan(v, &gcp)
+	}
+	debug.SetGCPercent(gcp)
 	runtime.MemProfileRate = 0
 	run := ev.Start("exploration")
 	run.MaxReplays = 120 // one defect here shows as several (family, target, shape) signatures
@@ -771,7 +775,7 @@ func TestCheck(t *testing.T) {
 			pprof.StartCPUProfile(fh)
 		}
 	}
-	deadline := run.Deadline(80*time.Second, 13*time.Minute)
+	deadline := run.Deadline(85*time.Second, 13*time.Minute)
 	only := os.Getenv("VERIF_C09_FAMILIES")
 	var total, skipped, twins int64
 	for _, fam := range familyDefs {
